@@ -9,6 +9,13 @@ Every call history is executed from scratch on a real SingleSetup with real algo
     i.e. the model's term is evaluated by an isolated run;
   * oracle - the property text written as Python bookkeeping (gates, "nothing stored", result == isolated run on the data
     bound at add time, shared array / other algorithms untouched, pickle round trip equal, PoSER accepts iff ...).
+
+A second machine (coq/Model/M_orch2.v, execute2 / check_instances below) follows algorithm INSTANCES with identity on
+SingleSetup and on MultiSetup_PreGER: set_run_params before / after add and run, the same instance added again, two
+instances under one name, add_algorithms with several instances, rollback, add on a setup without fs.  The model's state
+(every instance the caller holds, in the dict or not: parameters, data, fs, dt, result term, modes term; the dict name ->
+instance in order) is compared exactly; a term is evaluated by an isolated replay (World2).  check_call_forms calls the
+public entry points positionally in the documented (pristine, hard-coded) parameter order and with keywords.
 """
 import copy
 import glob
@@ -78,6 +85,16 @@ def vid(version):
 
 
 # ----------------------------------------------------------------------------------------------- digests / equality
+_DTYPE_BYTES = {}
+
+
+def _dtype_bytes(dt):
+    b = _DTYPE_BYTES.get(dt)
+    if b is None:
+        b = _DTYPE_BYTES[dt] = str(dt).encode()
+    return b
+
+
 def _feed(h, x):
     if x is None:
         h.update(b"N")
@@ -87,7 +104,7 @@ def _feed(h, x):
             for v in x.flat:
                 _feed(h, v)
         else:
-            h.update(b"A" + str(x.dtype).encode() + str(x.shape).encode())
+            h.update(b"A" + _dtype_bytes(x.dtype) + str(x.shape).encode())
             h.update(np.ascontiguousarray(x).tobytes())
     elif isinstance(x, (bool, np.bool_)):
         h.update(b"B1" if x else b"B0")
@@ -420,10 +437,11 @@ def execute(job):
     seen_versions = {()}
     unusable = None
     ran_any = False
+    last_snap = None  # the snapshot taken after a call is the one before the next call (nothing happens in between)
     for n, op in enumerate(conc):
         kind = op[0]
         check = n >= nstart
-        before = snapshot(ss, (user_arr, owner)) if check else None
+        before = (last_snap or snapshot(ss, (user_arr, owner))) if check else None
         res_before = None
         if check and kind in ("mpe", "mpeplot") and "a%d" % op[1] in ss.algorithms:
             res_before = copy.deepcopy(ss.algorithms["a%d" % op[1]].result)
@@ -525,7 +543,7 @@ def execute(job):
             what = ("run without data / fs / run parameters" if kind in ("run", "runall") else "mpe without a prior run")
             fail("oracle", "%s:gate-not-raised" % kind, "%s did not raise (%s)" % (kind, what), call=n)
         if check:
-            after = snapshot(ss, (user_arr, owner))
+            after = last_snap = snapshot(ss, (user_arr, owner))
             if exc is not None and kind != "runall" and after != before:
                 diff = [k for k in after if after.get(k) != before.get(k)]
                 fail("oracle", "%s:stored-on-exception" % kind,
@@ -1360,6 +1378,564 @@ def check_persistence(ctx, families):
     shutil.rmtree(root, ignore_errors=True)
 
 
+# ----------------------------------------------------------------------------------------------- instance machine (M_orch2.v)
+# Algorithm INSTANCES with identity on SingleSetup and on MultiSetup_PreGER: set_run_params on an instance (before / after
+# add, before / after run), adding the same instance again, two instances with one name, add_algorithms with several
+# instances, rollback.  The model state is compared instance by instance - the caller's handles, in the dict or not.
+HEADER2 = "From PyOMA.Model Require Import M_orch M_orch2."
+MS_BASE = {"FDD_MS": "FDD", "EFDD_MS": "EFDD", "SSIcov_MS": "SSIcov", "SSIdat_MS": "SSIdat", "pLSCF_MS": "pLSCF"}
+W2 = {}  # kind -> World2, set in run(), inherited by forked workers
+
+
+def base_of(cn):
+    return MS_BASE.get(cn, cn)
+
+
+def params_kw(cn, k):
+    kw = copy.deepcopy(PARAMS[base_of(cn)][k])
+    if cn in MS_BASE:
+        kw.pop("ref_ind", None)
+    return kw
+
+
+def alg_class(cn):
+    import pyoma2.algorithms as _alg
+    return getattr(_alg, cn)
+
+
+def version_fs(version):
+    fs = FS
+    for what in version:
+        if what == "dec":
+            fs = fs / 2
+        elif what == "new":
+            fs = FS / 2
+    return fs
+
+
+class World2:
+    """data versions and the evaluation of the model's terms by isolated runs, for one kind of setup.
+    Run c p d f = a fresh setup holding data version d at fs f, one fresh instance of class c with parameters p, add, run;
+    Extract2 r p' d' dt' args = that instance, then run_params := p', data := version d', fs, dt := dt', mpe(args)."""
+
+    def __init__(self, kind):
+        self.kind = kind
+        self.vcache, self.rcache, self.mcache = {}, {}, {}
+
+    def fresh_setup(self, version):
+        if self.kind == "single":
+            x, fs = W.base.copy(), FS
+            for what in version:  # recomputed with SciPy / by hand, never through pyoma2
+                if what == "det":
+                    x = signal.detrend(x, axis=0)
+                elif what == "new":
+                    x, fs = W.base2.copy(), FS / 2
+            return SingleSetup(x, fs=fs)
+        from pyoma2.setup import MultiSetup_PreGER
+        ss = MultiSetup_PreGER(fs=FS, ref_ind=[[0, 1], [0, 1]], datasets=[W.base.copy(), W.base2.copy()])
+        for what in version:
+            ss.decimate_data(q=2) if what == "dec" else ss.detrend_data()
+        return ss
+
+    def vdata(self, version):
+        if version not in self.vcache:
+            ss = self.fresh_setup(version)
+            self.vcache[version] = (ss.data, ss.fs, dg(ss.data))
+        return self.vcache[version]
+
+    def run_term(self, cn, k, version):
+        key = (cn, k, version)
+        if key not in self.rcache:
+            ss = self.fresh_setup(version)
+            alg = alg_class(cn)(name="iso", **params_kw(cn, k))
+            ss.add_algorithms(alg)
+            ss.run_by_name("iso")
+            self.rcache[key] = (alg, dg(alg.result))
+        return self.rcache[key]
+
+    def modes_term(self, cn, k, version, k2, dversion, dtfs, j):
+        key = (cn, k, version, k2, dversion, dtfs, j)
+        if key not in self.mcache:
+            alg = copy.deepcopy(self.run_term(cn, k, version)[0])
+            alg.run_params = alg_class(cn).RunParamCls(**params_kw(cn, k2))
+            alg.data = None if dversion is None else self.fresh_setup(dversion).data
+            alg.fs, alg.dt = dtfs, 1 / dtfs
+            alg.mpe(**copy.deepcopy(MPE[base_of(cn)][j]))
+            self.mcache[key] = (alg.result, dg(alg.result))
+        return self.mcache[key]
+
+
+def m2_codes(ops_codes):
+    return " ".join(str(x) for o in ops_codes for x in o)
+
+
+def m2_heap_codes(lineup):
+    return " ".join("%d %d %d" % (nm, CID[base_of(cn)], 0 if k is None else pid(base_of(cn), k) + 1) for cn, k, _, nm in lineup)
+
+
+def m2_snapshot(ss, handles):
+    snap = {"__data": dg(ss.data), "__fs": None if ss.fs is None else float(ss.fs), "__order": [(n, id(a)) for n, a in ss.algorithms.items()]}
+    for h, alg in enumerate(handles):
+        snap[h] = (dg(alg.run_params), dg(getattr(alg, "data", None)), getattr(alg, "fs", None), getattr(alg, "dt", None), dg(alg.result))
+    return snap
+
+
+def execute2(job):
+    """one history of the instance machine on the implementation.  job = dict(kind, lineup [[class, params|None, mpe variant,
+    name index]..], seq).  Returns the exceptions, the final state in the model's vocabulary, the model op codes (the mpe
+    arguments depend on the class the name leads to when the call is made) and the failures of the property-text oracle."""
+    kind, lineup = job["kind"], job["lineup"]
+    w2 = W2[kind]
+    fails, raised, codes = [], [], []
+    case = dict(kind="instances/" + kind, lineup=lineup, seq=job["seq"])
+
+    def fail(key, what, **extra):
+        fails.append(dict(kind="oracle", key="C15:" + key, what=what, case=dict(case, **extra)))
+
+    ss = w2.fresh_setup(())
+    handles = []
+    for cn, k, _, nm in lineup:
+        handles.append(alg_class(cn)(name="a%d" % nm) if k is None else alg_class(cn)(name="a%d" % nm, **params_kw(cn, k)))
+    # ---- the property text as bookkeeping: per instance what it was given and when it ran; per name who holds it
+    book = [dict(k=k, bound=None, dt=None, ran=None, modes=None, judged=True) for _, k, _, _ in lineup]
+    names = {}  # name index -> handle, insertion ordered
+    cur_version, cur_fs = (), FS
+    seen = {()}
+    path = os.path.join(job["tmp"], "c15_m2_%d.pkl" % os.getpid())
+    unusable = None
+    last_snap = None  # the snapshot taken after a call is the one before the next call
+    for n, op in enumerate(job["seq"]):
+        what = op[0]
+        before = last_snap or m2_snapshot(ss, handles)
+        exc, target, gated = None, None, []
+        try:
+            if what == "add":
+                codes.append([1, len(op[1])] + list(op[1]))
+                ss.add_algorithms(*[handles[h] for h in op[1]])
+            elif what == "set":
+                codes.append([7, op[1], pid(base_of(lineup[op[1]][0]), op[2])])
+                cn = lineup[op[1]][0]
+                handles[op[1]].set_run_params(alg_class(cn).RunParamCls(**params_kw(cn, op[2])))
+            elif what == "run":
+                codes.append([2, op[1]])
+                ss.run_by_name("a%d" % op[1])
+            elif what == "runall":
+                codes.append([3])
+                ss.run_all()
+            elif what == "mpe":
+                target = names.get(op[1])
+                cn, j = (lineup[target][0], lineup[target][2]) if target is not None else ("FDD", 0)
+                codes.append([4, op[1], aid(base_of(cn), j)])
+                ss.mpe("a%d" % op[1], **copy.deepcopy(MPE[base_of(cn)][j]))
+            elif what == "rebind":
+                v = tuple(cur_version or ()) + (op[1],) if op[1] != "new" else ("new",)
+                codes.append([5, vid(v) + 1, int(version_fs(v)) + 1])
+                if op[1] == "new":
+                    ss.data, ss.fs = W.base2.copy(), FS / 2
+                elif op[1] == "dec":
+                    ss.decimate_data(q=2)
+                else:
+                    ss.detrend_data()
+            elif what == "nofs":
+                codes.append([5, 0 if cur_version is None else vid(cur_version) + 1, 0])
+                ss.fs = None
+            elif what == "nodata":
+                codes.append([5, 0, 0 if cur_fs is None else int(cur_fs) + 1])
+                ss.data = None
+            elif what == "rollback":
+                codes.append([8])
+                ss.rollback()
+            elif what == "saveload":
+                codes.append([6])
+                save_to_file(ss, path)
+                old = ss
+                ss = load_from_file(path)
+                # the caller goes on with the loaded object: a handle on an instance the saved setup held now means the loaded one
+                handles = [ss.algorithms[a.name] if old.algorithms.get(a.name) is a else a for a in handles]
+            else:
+                raise ValueError(op)
+        except Exception as e:  # noqa: BLE001
+            exc = type(e).__name__
+        raised.append(exc)
+        # ---- the property text on this call
+        if what == "add":
+            if exc is None:
+                for h in op[1]:
+                    book[h]["bound"], book[h]["dt"], book[h]["judged"] = (cur_version, cur_fs), cur_fs, True
+                    names[lineup[h][3]] = h
+            else:
+                # an add that raises (setup without fs) is outside the property text.  What the code does is followed so that the
+                # later calls can be judged: _set_data of the first instance stored data and fs = None before 1/fs raised
+                book[op[1][0]]["bound"], book[op[1][0]]["judged"] = (cur_version, None), False
+                if cur_fs is not None:
+                    fail("add:raised", "add_algorithms raised %s on a setup with fs" % exc, call=n)
+        elif what == "set":
+            book[op[1]]["k"] = op[2]
+            if exc is not None:
+                fail("set_run_params:raised", "set_run_params raised %s" % exc, call=n)
+        elif what in ("run", "runall"):
+            todo = ([names[op[1]]] if op[1] in names else []) if what == "run" else list(names.values())
+            for h in todo:
+                b = book[h]
+                if b["bound"] is None or b["bound"][0] is None or b["bound"][1] is None or b["k"] is None:
+                    gated.append(h)
+                    break
+                b["ran"], b["modes"] = (b["k"], b["bound"][0], b["bound"][1]), None
+            if todo:
+                if gated and exc is None:
+                    fail("%s:gate-not-raised" % what, "%s did not raise (run without data / fs / run parameters)" % what, call=n)
+                if not gated and exc is not None:
+                    # run() itself may be unable to work on this data version (a record decimated down to too few samples):
+                    # if the ISOLATED run of the same class and parameters on that version fails too, the history is not judged
+                    for h in todo:
+                        try:
+                            w2.run_term(lineup[h][0], book[h]["ran"][0], book[h]["ran"][1])
+                        except Exception as e:  # noqa: BLE001
+                            unusable = "%s on data version %s: %s %s" % (lineup[h][0], list(book[h]["ran"][1]), type(e).__name__, str(e)[:60])
+                    if unusable is None:
+                        fail("%s:raised" % what, "%s raised %s although data, fs and run parameters are set" % (what, exc), call=n)
+        elif what == "mpe" and target is not None:
+            b = book[target]
+            if b["ran"] is None:
+                gated.append(target)
+                if exc is None:
+                    fail("mpe:gate-not-raised", "mpe did not raise (mpe without a prior run)", call=n)
+            else:
+                if exc is not None:
+                    fail("mpe:raised", "mpe raised %s although the algorithm has been run" % exc, call=n)
+                else:
+                    b["modes"] = (b["k"], b["bound"][0], b["dt"])
+        elif what == "rebind":
+            cur_version = tuple(cur_version or ()) + (op[1],) if op[1] != "new" else ("new",)
+            cur_fs = version_fs(cur_version)
+            seen.add(cur_version)
+        elif what == "nofs":
+            cur_fs = None
+        elif what == "nodata":
+            cur_version = None
+        elif what == "rollback":
+            cur_version, cur_fs, names = (), FS, {}
+        after = last_snap = m2_snapshot(ss, handles)
+        if what == "saveload":
+            if exc is not None:
+                fail("saveload:raised", "save_to_file / load_from_file raised %s" % exc, call=n)
+            elif {k: v for k, v in after.items() if k != "__order"} != {k: v for k, v in before.items() if k != "__order"} \
+                    or [x[0] for x in after["__order"]] != [x[0] for x in before["__order"]]:
+                fail("saveload:not-equal", "the loaded setup differs from the saved one", call=n)
+            continue
+        if exc is not None and what not in ("runall", "add") and after != before:
+            fail("%s:stored-on-exception" % what, "%s raised %s but something was stored: %s changed" % (
+                what, exc, [k for k in after if after[k] != before[k]]), call=n)
+        for h in gated:
+            if after[h] != before[h]:
+                fail("%s:stored-on-gate" % what, "the gate of instance %d fired but its run parameters / data / result changed" % h, call=n)
+        # frame: the instances the call does not reach; the shared data for everything but preprocessing
+        reach = {"add": lambda: set(op[1]), "set": lambda: {op[1]}, "run": lambda: {names[op[1]]} if op[1] in names else set(),
+                 "mpe": lambda: {target} if target is not None else set(), "runall": lambda: set(names.values())}.get(what, lambda: set())()
+        for h in range(len(handles)):
+            if h not in reach and after[h] != before[h]:
+                fail("%s:frame" % what, "%s changed instance %d (%s), which it does not reach" % (what, h, lineup[h][0]), call=n)
+        if what in ("add", "set"):  # ... and of those it reaches: add re-binds, set_run_params replaces the parameters - the result stays
+            for h in reach:
+                if after[h][4] != before[h][4]:
+                    fail("%s:result-lost" % what, "%s changed the stored result of instance %d" % (what, h), call=n)
+                if what == "add" and after[h][0] != before[h][0]:
+                    fail("add:params-changed", "add_algorithms changed the run parameters of instance %d" % h, call=n)
+                if what == "set" and after[h][1:4] != before[h][1:4]:
+                    fail("set_run_params:binding-changed", "set_run_params changed data / fs / dt of instance %d" % h, call=n)
+        if what not in ("rebind", "nofs", "nodata", "rollback") and (after["__data"], after["__fs"]) != (before["__data"], before["__fs"]):
+            fail("%s:shared-data" % what, "%s modified the setup's data or fs" % what, call=n)
+        if what not in ("add", "rollback") and after["__order"] != before["__order"]:
+            fail("%s:dict" % what, "%s changed the setup's algorithms dict" % what, call=n)
+    if os.path.exists(path):
+        os.remove(path)
+    # ---- final state in the model's vocabulary
+    vtab = {w2.vdata(v)[2]: v for v in seen}
+
+    def show_data(x):
+        if x is None:
+            return "-"
+        v = vtab.get(dg(x))
+        return "?" if v is None else str(vid(v))
+
+    def show_fs(x):
+        return "-" if x is None else str(int(round(float(x))))
+
+    if cur_version is not None and (ss.data is None or dg(ss.data) != w2.vdata(cur_version)[2]):
+        fail("data:shared-array", "setup.data is not the record after the preprocessing calls made (%s)" % list(cur_version))
+    want_order = [(nm, h) for nm, h in names.items()]
+    got_order = []
+    for nm, alg in ss.algorithms.items():
+        hs = [h for h, a in enumerate(handles) if a is alg]
+        got_order.append((int(nm[1:]), hs[0] if hs else -1))
+    if got_order != want_order:
+        fail("state:names", "algorithms dict is %s (name, instance), calls made imply %s" % (got_order, want_order))
+    parts = []
+    ran_any = False
+    for h, alg in enumerate(handles):
+        cn, _, j, nm = lineup[h]
+        b = book[h]
+        bcn = base_of(cn)
+        rp = alg.run_params
+        if rp is None:
+            par = "-"
+        else:
+            mine = {f: dg(v) for f, v in vars(rp).items() if f not in MPE_FIELDS}
+            par = "?"
+            for k in range(len(PARAMS[bcn])):
+                if mine == {f: dg(v) for f, v in vars(alg_class(cn).RunParamCls(**params_kw(cn, k))).items() if f not in MPE_FIELDS}:
+                    par = str(pid(bcn, k))
+        dt = getattr(alg, "dt", None)
+        rs, ms = "-", "-"
+        if alg.result is not None:
+            rs, ms = "?", "?"
+            if b["ran"] is not None:
+                ran_any = True
+                k1, v1, f1 = b["ran"]
+                t1 = "%d,%d,%d,%d" % (CID[bcn], pid(bcn, k1), vid(v1), int(f1))
+                try:
+                    cands = [(w2.run_term(cn, k1, v1)[0].result, (t1, "-"))]
+                    if b["modes"] is not None:
+                        k2, v2, f2 = b["modes"]
+                        t2 = "%s,%d,%s,%s,%d" % (t1, pid(bcn, k2), "-" if v2 is None else vid(v2), show_fs(f2), aid(bcn, j))
+                        cands.insert(0, (w2.modes_term(cn, k1, v1, k2, v2, f2, j)[0], (t1, t2)))
+                except Exception as e:  # noqa: BLE001 - a term the isolated replay cannot evaluate: history not judged
+                    unusable = "%s: %s %s" % (cn, type(e).__name__, str(e)[:80])
+                    cands = []
+                out = []
+                for obj, names_ in cands:
+                    if dg(alg.result) == dg(obj) or same(alg.result, obj, 1e-12, out=out):
+                        rs, ms = names_
+                        break
+                if cands and (rs, ms) != cands[0][1]:
+                    fail("result:not-isolated-run", "result of instance %d (%s) differs from the isolated evaluation of what the calls made imply: "
+                         "run with parameters %d on data version %s at fs %s%s: %s" % (
+                             h, cn, k1, list(v1), f1, "" if b["modes"] is None else ", modes extracted under parameters %d, dt 1/%s" % (
+                                 b["modes"][0], b["modes"][2]), "; ".join(out[:2])))
+        elif b["ran"] is not None:
+            fail("result:presence", "instance %d (%s) has no result although it has been run" % (h, cn))
+        if b["ran"] is None and alg.result is not None:
+            fail("result:presence", "instance %d (%s) has a result although it never ran" % (h, cn))
+        if True:
+            if (par == "-") != (b["k"] is None) or (b["k"] is not None and par != str(pid(bcn, b["k"]))):
+                fail("params:changed", "run parameters of instance %d (%s) are not those given last (constructor / set_run_params)" % (h, cn))
+            if b["bound"] is not None and b["judged"]:
+                bv, bf = b["bound"]
+                adata = getattr(alg, "data", None)
+                if (bv is None) != (adata is None) or (bv is not None and dg(adata) != w2.vdata(bv)[2]) or getattr(alg, "fs", None) != bf:
+                    fail("data:binding", "instance %d (%s): data / fs are not those of the setup at its latest add (version %s, fs %s)" % (
+                        h, cn, None if bv is None else list(bv), bf))
+        parts.append("%d:%d:%s:%s:%s:%s:%s:%s" % (nm, CID[bcn], par, show_data(getattr(alg, "data", None)), show_fs(getattr(alg, "fs", None)),
+                                                  "-" if dt is None else show_fs(1 / dt), rs, ms))
+    state = "%s:%s/%s/%s" % (show_data(ss.data), show_fs(ss.fs), ";".join("%d>%d" % e for e in got_order), ";".join(parts))
+    return dict(raised=raised, state=state, codes=codes, fails=fails, unusable=unusable, nontrivial=ran_any, case=case)
+
+
+def execute2_safe(job):
+    try:
+        return execute2(job)
+    except Exception:  # noqa: BLE001
+        import traceback
+        case = dict(kind="instances/" + job["kind"], lineup=job["lineup"], seq=job["seq"])
+        return dict(raised=[], state="!", codes=None, unusable=None, nontrivial=False, case=case,
+                    fails=[dict(kind="correspondence", key="C15:harness:analysis-crashed", case=case,
+                                what="the history could not be analysed: " + traceback.format_exc()[-800:])])
+
+
+def _worker2(jobs):
+    return [execute2_safe(j) for j in jobs]
+
+
+def check_instances(ctx, jobs, nproc):
+    for j in jobs:
+        j["tmp"] = ctx.work
+    if nproc <= 1 or len(jobs) < 64:
+        recs = _worker2(jobs)
+    else:
+        chunk = max(8, min(100, len(jobs) // (nproc * 4)))
+        chunks = [jobs[i:i + chunk] for i in range(0, len(jobs), chunk)]
+        with multiprocessing.get_context("fork").Pool(nproc) as pool:
+            recs = [r for c in pool.map(_worker2, chunks) for r in c]
+    live = [(j, r) for j, r in zip(jobs, recs) if r["codes"] is not None]
+    exprs, per = [], 40
+    for i in range(0, len(live), per):
+        rows = "|".join("%s|%s" % (m2_heap_codes(j["lineup"]), m2_codes(r["codes"])) for j, r in live[i:i + per])
+        exprs.append('showMHistsS 0%%nat %d%%nat "%s"' % (int(FS), rows))
+    outs = ctx.coq_eval(HEADER2, exprs, shard=max(1, min(40, (len(exprs) + 13) // 14)))
+    model = [s for o in outs for s in o.split("|")]
+    assert len(model) == len(live), (len(model), len(live))
+    model = iter(model)
+    for job, rec in zip(jobs, recs):
+        case = rec["case"]
+        ctx.count(case, nontrivial=rec["nontrivial"])
+        ctx.hist("instance machine", "%s, %d calls" % (job["kind"], len(job["seq"])))
+        m = next(model) if rec["codes"] is not None else None
+        if rec["unusable"]:
+            ctx.not_judged += 1
+            ctx.note("term not evaluable by an isolated replay (history not judged): " + rec["unusable"])
+            continue
+        for f in rec["fails"]:
+            ctx.fail(f["kind"], f["what"], f["case"], key=f["key"])
+        if m is None:
+            continue
+        mtrace, mstate = m.split("/", 1)
+        mtrace = mtrace.split(" ") if mtrace else []
+        for n, (exc, merr) in enumerate(zip(rec["raised"], mtrace)):
+            ctx.hist("instance machine outcome", "%s:%s" % (job["seq"][n][0], merr))
+            if (merr == "ok") != (exc is None):
+                ctx.fail("correspondence", "call %d (%s): model says %s, implementation %s" % (
+                    n, job["seq"][n], merr, exc or "no exception"), dict(case, call=n), key="C15:corr:m2-raise-%s" % job["seq"][n][0])
+            elif merr == "V" and exc != "ValueError":
+                ctx.fail("correspondence", "call %d (%s): the model's gate fires (ValueError), implementation raised %s" % (
+                    n, job["seq"][n], exc), dict(case, call=n), key="C15:corr:m2-gate-kind-%s" % job["seq"][n][0])
+        if mstate != rec["state"]:
+            ctx.fail("correspondence", "instance machine, final state differs: model %s, implementation (results matched against isolated "
+                     "evaluations of the terms) %s" % (mstate, rec["state"]), case, key="C15:corr:m2-state")
+
+
+def instance_jobs(ctx, kind, lineup, full_len, sampled, malformed=False):
+    """every call sequence up to full_len over the instance alphabet from two start states + sampled longer ones"""
+    rng = ctx.rng
+    nh = len(lineup)
+    nnames = sorted({e[3] for e in lineup})
+    alpha = [["add", [h]] for h in range(nh)]
+    same_name = [[h, g] for h in range(nh) for g in range(nh) if h != g and lineup[h][3] == lineup[g][3]]
+    alpha += [["add", p] for p in same_name[:1]]
+    alpha += [["set", h, 1 - (lineup[h][1] or 0)] for h in range(nh)] + [["set", 0, lineup[0][1] or 0]]
+    alpha += [["run", a] for a in nnames] + [["mpe", a] for a in nnames] + [["runall"], ["rollback"], ["saveload"]]
+    if malformed:  # setup.fs / setup.data set to None by assignment, unknown names
+        alpha += [["rebind", "new"], ["nofs"], ["nodata"], ["run", UNKNOWN], ["mpe", UNKNOWN]]
+    else:
+        alpha += [["rebind", "new" if kind == "single" else "dec"], ["rebind", "det"]]
+    starts = [[], [["add", [0]], ["runall"]]]
+    jobs = []
+    for start in starts:
+        for L in range(1, full_len + 1):
+            for seq in itertools.product(alpha, repeat=L):
+                jobs.append(dict(kind=kind, lineup=lineup, seq=copy.deepcopy(start + list(seq))))
+        for _ in range(sampled):  # mostly with some instances registered first, so that run / mpe by name find them
+            L = rng.randint(full_len + 1, full_len + 4)
+            pre = [["add", rng.sample(range(nh), rng.randint(1, nh))]] if rng.random() < 0.7 else []
+            seq, ndec = [], 0
+            for op in [rng.choice(alpha) for _ in range(L)]:  # one decimation per history: a second one leaves too few samples to run on
+                ndec += op == ["rebind", "dec"]
+                seq.append(["rebind", "det"] if (op == ["rebind", "dec"] and ndec > 1) else op)
+            jobs.append(dict(kind=kind, lineup=lineup, seq=copy.deepcopy(start + pre + seq)))
+    return jobs
+
+
+# ----------------------------------------------------------------------------------------------- call forms
+# parameter order of the public entry points as documented in the PRISTINE tree (hard-coded on purpose: a changed tree must not
+# redefine what a positional call means)
+MPE_ORDER = {
+    "FDD": ["sel_freq", "DF"],
+    "EFDD": ["sel_freq", "DF1", "DF2", "cm", "MAClim", "sppk", "npmax"],
+    "FSDD": ["sel_freq", "DF1", "DF2", "cm", "MAClim", "sppk", "npmax"],
+    "SSIcov": ["sel_freq", "order", "rtol"],
+    "SSIdat": ["sel_freq", "order", "rtol"],
+    "pLSCF": ["sel_freq", "order", "rtol"],
+}
+# a non-default value for EVERY parameter (defaults: DF 0.1; DF1 0.1, DF2 1.0, cm 1, MAClim 0.85, sppk 3, npmax 20; order "find_min", rtol 5e-2)
+MPE_FULL = {
+    "FDD": dict(sel_freq=[1.0, 2.5], DF=0.3),
+    "EFDD": dict(sel_freq=[1.0, 2.5], DF1=0.2, DF2=0.8, cm=2, MAClim=0.9, sppk=1, npmax=4),
+    "FSDD": dict(sel_freq=[1.0, 2.5], DF1=0.2, DF2=0.8, cm=2, MAClim=0.9, sppk=1, npmax=4),
+    "SSIcov": dict(sel_freq=[1.0, 2.5], order=6, rtol=0.3),
+    "SSIdat": dict(sel_freq=[1.0, 2.5], order=6, rtol=0.3),
+    "pLSCF": dict(sel_freq=[1.0, 2.5], order=4, rtol=0.5),
+}
+
+
+def check_call_forms(ctx):
+    """the documented POSITIONAL call of every public entry point this check drives gives what the keyword call gives:
+    setup.mpe(name, ...) and Class.mpe(...) for the six single-setup and the five multi-setup classes, the MultiSetup_PoSER
+    constructor, SingleSetup / MultiSetup_PreGER constructors, run_by_name, decimate_data, filter_data, save_to_file / load_from_file"""
+    from pyoma2.setup import MultiSetup_PreGER
+
+    def differ(a, b):
+        out = []
+        return None if (dg(a) == dg(b) or same(a, b, 0.0, out=out)) else "; ".join(out[:2])
+
+    for cn in list(CLASSES) + list(MS_BASE):
+        bcn = base_of(cn)
+        kw = MPE_FULL[bcn]
+        pos = [copy.deepcopy(kw[f]) for f in MPE_ORDER[bcn]]
+        case = dict(kind="call form", entry="%s.mpe" % cn, keywords=kw, positional_order=MPE_ORDER[bcn])
+        try:
+            ss = W2["preger" if cn in MS_BASE else "single"].fresh_setup(())
+            ss.add_algorithms(alg_class(cn)(name="x", **params_kw(cn, 0)))
+            ss.run_by_name("x")
+            forms = [copy.deepcopy(ss) for _ in range(3)]
+            forms[0].mpe("x", **copy.deepcopy(kw))
+        except Exception as e:  # noqa: BLE001 - the keyword call itself is not available on this record: nothing to compare with
+            ctx.not_judged += 1
+            ctx.note("call forms of %s.mpe not judged: keyword call raised %s" % (cn, type(e).__name__))
+            continue
+        for how, call in (("setup.mpe(name, *positional)", lambda s_: s_.mpe("x", *pos)), ("Class.mpe(*positional)", lambda s_: s_["x"].mpe(*pos))):
+            ctx.count(dict(case, how=how))
+            other = forms[1] if how.startswith("setup") else forms[2]
+            try:
+                call(other)
+            except Exception as e:  # noqa: BLE001
+                ctx.fail("oracle", "%s of %s raised %s where the keyword call succeeds" % (how, cn, type(e).__name__), dict(case, how=how),
+                         key="C15:callform:mpe")
+                continue
+            bad = differ(other["x"].result, forms[0]["x"].result) or differ(vars(other["x"].run_params), vars(forms[0]["x"].run_params))
+            if bad:
+                ctx.fail("oracle", "%s of %s in the documented parameter order %s gives another result / other stored parameters than "
+                         "the keyword call with the same values: %s" % (how, cn, MPE_ORDER[bcn], bad), dict(case, how=how), key="C15:callform:mpe")
+    # ---- PoSER constructor: (ref_ind, single_setups, names)
+    setups = []
+    for rec in (W.base, W.base2):
+        ss = SingleSetup(rec.copy(), FS)  # (data, fs) positionally
+        ss.add_algorithms(FDD(name="x", **params_kw("FDD", 0)))
+        ss.run_by_name("x")
+        ss.mpe("x", **copy.deepcopy(MPE["FDD"][0]))
+        setups.append(ss)
+    for names_, valid in ((["n"], True), (["n", "m"], False), ([], False)):
+        case = dict(kind="call form", entry="MultiSetup_PoSER", names=names_)
+        ctx.count(case)
+        got = []
+        for form in ("positional", "keyword"):
+            try:
+                po = MultiSetup_PoSER([[0], [0, 1]], setups, names_) if form == "positional" else \
+                    MultiSetup_PoSER(ref_ind=[[0], [0, 1]], single_setups=setups, names=names_)
+                got.append(("accepted", dg(po.ref_ind), list(po.names), [id(x) for x in po.setups]))
+            except Exception as e:  # noqa: BLE001
+                got.append((type(e).__name__,))
+        if got[0] != got[1] or (got[0][0] == "accepted") != valid or (not valid and got[0][0] != "ValueError"):
+            ctx.fail("oracle", "MultiSetup_PoSER(ref_ind, single_setups, names): positional call %s, keyword call %s, the property says %s" % (
+                got[0][0], got[1][0], "accept" if valid else "ValueError"), case, key="C15:callform:poser")
+    # ---- setups: constructors, run_by_name, preprocessing, save / load
+    path = os.path.join(ctx.work, "c15_forms.pkl")
+    pairs = []
+    a, b = SingleSetup(W.base.copy(), FS), SingleSetup(data=W.base.copy(), fs=FS)
+    pairs.append(("SingleSetup(data, fs)", a, b))
+    a.add_algorithms(SSIcov(name="x", **params_kw("SSIcov", 0))); b.add_algorithms(SSIcov(name="x", **params_kw("SSIcov", 0)))
+    a.filter_data(3.0, 4, "highpass"); b.filter_data(Wn=3.0, order=4, btype="highpass")
+    pairs.append(("filter_data(Wn, order, btype)", a, b))
+    a.decimate_data(2); b.decimate_data(q=2)
+    pairs.append(("decimate_data(q)", a, b))
+    a.add_algorithms(FDD(name="y", **params_kw("FDD", 0))); b.add_algorithms(FDD(name="y", **params_kw("FDD", 0)))
+    a.run_by_name("y"); b.run_by_name(name="y")
+    pairs.append(("run_by_name(name)", a, b))
+    save_to_file(a, path); a2 = load_from_file(path)
+    save_to_file(setup=b, file_name=path); b2 = load_from_file(file_name=path)
+    pairs.append(("save_to_file(setup, file_name) / load_from_file(file_name)", a2, b2))
+    pairs.append(("save_to_file / load_from_file against the saved setup", a2, a))
+    ds = lambda: [W.base.copy(), W.base2.copy()]  # noqa: E731
+    pairs.append(("MultiSetup_PreGER(fs, ref_ind, datasets)", MultiSetup_PreGER(FS, [[0, 1], [0, 1]], ds()),
+                  MultiSetup_PreGER(fs=FS, ref_ind=[[0, 1], [0, 1]], datasets=ds())))
+    if os.path.exists(path):
+        os.remove(path)
+    for entry, u, v in pairs:
+        case = dict(kind="call form", entry=entry)
+        ctx.count(case)
+        if snapshot(u) != snapshot(v) or dg(getattr(u, "datasets", None)) != dg(getattr(v, "datasets", None)):
+            ctx.fail("oracle", "%s: the positional call leaves another setup state (data / fs / bound algorithms / results) than the "
+                     "keyword call" % entry, case, key="C15:callform:setup")
+
+
 # ----------------------------------------------------------------------------------------------- entry point
 def run(ctx):
     global W
@@ -1375,13 +1951,22 @@ def run(ctx):
                          "(empty | all added by one add_algorithms call) x EVERY sequence over {add a, run a, mpe a, run_all, preprocessing, "
                          "save+load} up to the tier's length (plus a malformed alphabet: data None, fs None, unknown names, algorithm without "
                          "parameters), each executed from scratch; non-trivial = at least one algorithm holds a result at the end; "
-                         "PoSER: all assignments of type list x run/modes state per algorithm to 0..3(4) setups x name-list lengths")
+                         "PoSER: all assignments of type list x run/modes state per algorithm to 0..3(4) setups x name-list lengths; "
+                         "instance machine: 3 instances (two under one name, one built without parameters) on SingleSetup and on "
+                         "MultiSetup_PreGER x two start states x EVERY sequence up to length 2 (PreGER quick: 1) over {add one / both namesakes, "
+                         "set_run_params per instance, run / mpe per name, run_all, rollback, save+load, two preprocessing calls} + sampled "
+                         "longer ones + a malformed alphabet (fs None, data None, unknown names)")
     ctx.assumptions += [
         "the result of run() is modelled as the uninterpreted term Run cls params data fs; that the numerical code of a class is a function "
         "of (parameters, data, fs) only is what the correspondence tests (results compared bit for bit with isolated runs)",
         "pickle (save_to_file/load_from_file) is modelled as the identity; equality of what comes back is tested, not proved",
         "data versions after decimate_data(q=2) / detrend_data() are recomputed with scipy.signal directly and compared bit for bit",
         "run() / mpe() are total in the model once their gate passes: parameter sets are calibrated so that isolated runs succeed",
+        "instance machine: modes are the uninterpreted term Extract2 result params data dt args (mpe of EFDD / FSDD reads the current "
+        "method_SD and dt); a term is evaluated by an isolated replay that sets run_params / data / fs / dt on a freshly run instance",
+        "instance machine: after save+load the caller's handle on an instance held by the saved setup is taken to mean the loaded instance "
+        "of that name (pickle = identity on the setup); handles on instances outside the setup stay what they were",
+        "MultiSetup_PreGER data versions are produced by the class's own decimate_data / detrend_data on a fresh setup (not recomputed with SciPy)",
     ]
     _m_fdd.SelFromPlot = _m_ssi.SelFromPlot = _m_plscf.SelFromPlot = _NoGui
     # ---- records (retry with the next draw if an isolated reference run is not computable on it)
@@ -1583,6 +2168,36 @@ def run(ctx):
     t0 = clock()
     for r in recs[:2]:
         ctx.sample(dict(lineup=r["case"]["lineup"], start=r["case"]["start"], seq=r["case"]["seq"], raised=r["raised"], state=r["state"]))
+
+    # ---- instance machine (M_orch2.v) on SingleSetup and MultiSetup_PreGER: corpus cases first
+    W2["single"], W2["preger"] = World2("single"), World2("preger")
+    ijobs = []
+    for path in sorted(glob.glob(os.path.join(VERIF, "corpus", "C15", "*.json"))):
+        ijobs += [dict(kind=c["kind"], lineup=c["lineup"], seq=c["seq"]) for c in json.load(open(path)).get("instance_cases", [])]
+    if ctx.replay:
+        c = json.load(open(ctx.replay)).get("case", {})
+        if str(c.get("kind", "")).startswith("instances/"):
+            ijobs.append(dict(kind=c["kind"].split("/")[1], lineup=c["lineup"], seq=c["seq"]))
+    if ijobs:
+        check_instances(ctx, ijobs, 1)
+    ijobs = []
+    msn = list(MS_BASE)
+    for rep_ in range(ctx.n(1, 4)):
+        # two instances of different classes under ONE name + an instance built without run parameters under another name
+        x, y = rng.sample(names, 2)
+        ijobs += instance_jobs(ctx, "single", [[x, rng.randrange(2), rng.randrange(2), 0], [y, rng.randrange(2), rng.randrange(2), 0],
+                                              [x, None, rng.randrange(2), 1]], ctx.n(2, 3) if rep_ == 0 else 2, ctx.n(90, 600))
+        x, y = rng.sample(msn, 2)
+        ijobs += instance_jobs(ctx, "preger", [[x, rng.randrange(2), rng.randrange(2), 0], [y, rng.randrange(2), rng.randrange(2), 0],
+                                              [x, None, rng.randrange(2), 1]], ctx.n(1, 2), ctx.n(90, 600))
+        x, y = rng.sample(names, 2)
+        ijobs += instance_jobs(ctx, "single", [[x, rng.randrange(2), rng.randrange(2), 0], [y, None, rng.randrange(2), 1],
+                                              [y, rng.randrange(2), rng.randrange(2), 1]], ctx.n(1, 2), ctx.n(60, 600), malformed=True)
+    check_call_forms(ctx)
+    ctx.hist("instance-machine histories", len(ijobs))
+    check_instances(ctx, ijobs, nproc)
+    T["instance machine"] = [round(float(x), 1) for x in clock() - t0]
+    t0 = clock()
 
     # ---- PoSER
     # (superclass, subclass) pairs first: type EQUALITY is required, a subclass in the same position is a different type
